@@ -36,6 +36,7 @@ def main():
         rc, out = sh('git -C %s apply %s/patch.diff' % (WT, d))
         if rc != 0: res['apply'] = out; print(d, 'PATCH DOES NOT APPLY', out)
         else:
+            if skip_suite and meta.get('confirmed', {}).get('suite_with_change'): res['suite_with_change'] = dict(meta['confirmed']['suite_with_change'], at_repo_head=meta['confirmed'].get('repo_head'))
             if not skip_suite:
                 ok, tail = build_and_test(); res['suite_with_change'] = dict(passed=ok, tail=tail[-300:])
             rc1, out1 = demo(meta, d); res['demo_with_change'] = dict(rc=rc1, tail=out1[-600:])
